@@ -1,6 +1,5 @@
 import UgoVerif.Proofs.InvokeBind
-import UgoVerif.Proofs.ShiftOps
-import UgoVerif.Proofs.ShiftRet
+import UgoVerif.Proofs.ShiftRun
 /-
   C14: the two entries into a compiled function — `prologue` of the child's `Run` (Go-side call) and
   `xOpCallCompiled` without spread in the parent (in-script call) — end in states related by the
@@ -53,7 +52,7 @@ theorem entries_shifted (c p : State) (fa ci : Nat) (free : Option (List Addr)) 
     (hnl : (p.codes[ci]!).numParams ≤ (p.codes[ci]!).numLocals) :
     ∃ c' p', exec (prologue p.globals args) c = (.ok (), c') ∧
       exec (callCompiled fa args.length 0) p = (.ok (.ok ()), p') ∧
-      ShB (p.sp - args.length).toNat p.frameIndex.toNat (p.codes[ci]!).numLocals c' p' := by
+      ShB p' (p.sp - args.length).toNat p.frameIndex.toNat 0 c' p' ∧ c'.sp = (p.codes[ci]!).numLocals := by
   have hcell : exec (fnCell fa) p = (.ok (p.codes[ci]!, free), p) := EvalLocals.exec_fnCell p fa ci free hfn
   obtain ⟨stp, hp, hpsz, hpslots, hprest⟩ :=
     callCompiled_slots fa args p _ free hcell hargs hacc hself hfi hbp hsp hroom hnl hshp.stack
@@ -87,8 +86,8 @@ theorem entries_shifted (c p : State) (fa ci : Nat) (free : Option (List Addr)) 
           · rw [Array.getElem?_eq_none hl] at hfn1; cases hfn1
         simp [Nat.ne_of_lt hlt, hfn1]
       · exact hfn1)
-  refine ⟨_, _, hB, hp, ?_⟩
-  · refine ⟨(p.codes[ci]!).numLocals, ((p.codes[ci]!).numLocals : Int), ?_, Int.le_refl _, Nat.le_refl _⟩
+  refine ⟨_, _, hB, hp, ?_, rfl⟩
+  · refine ⟨0, (p.codes[ci]!).numLocals, ((p.codes[ci]!).numLocals : Int), ?_, Int.le_refl _, Nat.zero_le _⟩
     have hc1h : c1.heap = p.heap := by rw [← hc1]; exact hheap
     have hkLt : p.frameIndex.toNat < frameSize := by have := hfi.2; simp only [frameSize] at *; omega
     exact {
@@ -107,7 +106,7 @@ theorem entries_shifted (c p : State) (fa ci : Nat) (free : Option (List Addr)) 
       spS := rfl
       spT := by show p.sp - args.length + _ = _; omega
       curS := rfl
-      curT := rfl
+      curT := by show p.frameIndex.toNat = p.frameIndex.toNat + 0; omega
       fiS := rfl
       fiT := by show p.frameIndex + 1 = _; omega
       errS := by rw [← hc1]
@@ -115,10 +114,24 @@ theorem entries_shifted (c p : State) (fa ci : Nat) (free : Option (List Addr)) 
       shapeS := ⟨hcsz, by rw [← hc1]; simpa using hshc.frames⟩
       shapeT := ⟨hpsz, by simpa using hshp.frames⟩
       kLt := hkLt
-      frame := by
-        show FrameSh _ ((c1.frames.modify 0 _)[0]!) (((p.frames.modify p.curFrame _).modify p.frameIndex.toNat _)[p.frameIndex.toNat]!)
-        rw [frames_modify_self _ _ _ hfs, frames_modify_self _ _ _ (by simp [hshp.frames]; exact hkLt)]
-        exact ⟨by simp [hmain, ← hc1], rfl, rfl, by simp; omega, rfl, rfl, rfl⟩
+      frames := by
+        intro j hj
+        have hj0 : j = 0 := by omega
+        subst hj0
+        show FrameSh _ _ ((c1.frames.modify 0 _)[0]!) (((p.frames.modify p.curFrame _).modify p.frameIndex.toNat _)[p.frameIndex.toNat + 0]!)
+        rw [Nat.add_zero, frames_modify_self _ _ _ hfs, frames_modify_self _ _ _ (by simp [hshp.frames]; exact hkLt)]
+        exact ⟨by simp [hmain, ← hc1], rfl, by simp; omega, trivial, rfl, by simp⟩
+      ips := fun j hj => by omega
+      bp0 := by
+        show ((c1.frames.modify 0 _)[0]!).bp = 0
+        rw [frames_modify_self _ _ _ hfs]
+      bpPos := fun j h1 hj => by omega
+      room := by
+        have : (0 : Int) ≤ p.sp - args.length := hbp
+        simp only [stackSize] at hroom ⊢
+        omega
+      lowF := fun _ _ => rfl
+      lowS := fun _ _ => rfl
       stack := by
         intro i hi
         show stc[i]! = stp[(p.sp - args.length).toNat + i]!
